@@ -2728,3 +2728,67 @@ def run_maxstore(prog, ctx=None):
     if n < 1:
         raise Broken("MAXSTORE: no store to a queue capacity found")
     return res
+
+
+def run_fragfirst(prog, ctx=None):
+    """FRAGFIRST: a function that is handed a fragment list (a `struct iovec *` parameter with a count) does not decide an
+    exit by the length of the first fragment alone: no branch outside every loop tests `V->iov_len` / `V[0].iov_len` of
+    the unmoved parameter with an edge that leads straight to a return.  An empty first fragment says nothing about the
+    fragments behind it; the same bytes cut differently would be searched."""
+    res = Result("FRAGFIRST")
+    files = set(ctx.get("files", [])) if ctx else None
+    for f in funcs_of(prog, files):
+        vecs = {}
+        for p in f.params:
+            T = f.T(p.get("t"))
+            if T.get("k") == "ptr" and "iovec" in f.T(T.get("to")).get("s", "") and "id" in p:
+                vecs[p["id"]] = p.get("n")
+        if not vecs or not any(f.T(p.get("t")).get("k") == "int" for p in f.params):
+            continue
+        # parameters that are stepped are cursors, not the list head
+        for b, i, n in f.walk_all():
+            if n.get("k") == "un" and n.get("op") in ("++", "--", "post++", "post--", "pre++", "pre--"):
+                x = strip(n["e"], lvalue_to_rvalue=False)
+                if x.get("k") == "ref":
+                    vecs.pop(x["d"].get("id"), None)
+            if n.get("k") == "bin" and n.get("op") in ("=", "+=", "-="):
+                x = strip(n["a"], lvalue_to_rvalue=False)
+                if x.get("k") == "ref":
+                    vecs.pop(x["d"].get("id"), None)
+        if not vecs:
+            continue
+        loops = natural_loops(f)
+        inloop = set()
+        for body in loops.values():
+            inloop |= set(body)
+        bad = None
+        for bid, blk in sorted(f.blocks.items()):
+            if bid in inloop or not (blk.term and blk.term.get("cond") is not None and len(blk.succ) == 2):
+                continue
+            c = strip(blk.term["cond"], all_casts=True)
+            if blk.term.get("cls") == "BinaryOperator":
+                if c.get("k") == "bin" and c.get("op") in ("&&", "||"):
+                    c = strip(c["a"], all_casts=True)
+            else:
+                while c.get("k") == "bin" and c.get("op") in ("&&", "||"):
+                    c = strip(c["b"], all_casts=True)
+            hit = None
+            for m in walk(c):
+                if m.get("k") == "mem" and m.get("f") == "iov_len":
+                    base = strip(m["b"], all_casts=True)
+                    if m.get("arrow") and base.get("k") == "ref" and base["d"].get("id") in vecs:
+                        hit = m
+                    if base.get("k") == "idx" and cval(base["i"]) == 0 and strip(base["a"], all_casts=True).get("k") == "ref" \
+                            and strip(base["a"], all_casts=True)["d"].get("id") in vecs:
+                        hit = m
+                    if base.get("k") == "un" and base.get("op") == "*" and strip(base["e"], all_casts=True).get("k") == "ref" \
+                            and strip(base["e"], all_casts=True)["d"].get("id") in vecs:
+                        hit = m
+            if hit is None:
+                continue
+            for s2 in blk.succ:
+                if s2 is not None and any(e.get("k") == "ret" for e in f.blocks[s2].el) and s2 not in inloop:
+                    bad = (blk, hit)
+        res.ob("%s:no exit on the first fragment alone" % f.qn, bad is None, f, (bad[1].get("l") if bad else f.line) or f.line,
+               "" if bad is None else "an exit of %s is decided by `%s`, the length of the first fragment only: the fragments behind an empty first one are never looked at" % (f.qn, norm(show(bad[1], f))))
+    return res
